@@ -142,6 +142,19 @@ def drive(ctx, groups, pool, chunksize=1, on_result=None):
     return agg
 
 
+def vacuity(agg, prefix=None, family=None):
+    """Coverage entries that expose vacuous sweeps: options whose single deviation never changed any output and (given the
+    names of a family) options that no program of the universe made uncrustify read at all."""
+    tried = {k: v for k, v in agg.get("tried", {}).items() if prefix is None or k.startswith(prefix)}
+    fired = {k: v for k, v in agg.get("fired", {}).items() if k in tried}
+    out = {"options_swept_singly": len(tried), "options_that_changed_some_output": len(fired),
+           "options_swept_but_never_effective": sorted(k for k in tried if not fired.get(k))}
+    if family is not None:
+        out["family_options_total"] = len(family)
+        out["family_options_never_read_by_any_program"] = sorted(n for n in family if n not in agg.get("tried", {}))
+    return out
+
+
 def pack(lines, per):
     for i in range(0, len(lines), per):
         yield i // per, lines[i:i + per]
